@@ -17,6 +17,7 @@ MODULES = [
     ('r_resolve', ['C09', 'C10', 'C11', 'C19', 'C14']),
     ('r_emit', ['C13', 'C14', 'C19']),
     ('r_tmpl', ['C01', 'C02', 'C04', 'C05', 'C06', 'C07', 'C08', 'C13', 'C14', 'C15', 'C16', 'C17', 'C20', 'C11']),
+    ('r_access', ['C04', 'C07', 'C09', 'C10', 'C11', 'C13', 'C14', 'C17', 'C19']),
     ('r_parser', ['C18', 'C08', 'C12']),
     ('r_panic', ['C12', 'C15', 'C04']),
 ]
